@@ -116,15 +116,17 @@ SegP project(gr_segment *seg, const gr_face *face, const gr_font *font, bool gid
     const unsigned nglyphs = face ? gr_face_n_glyphs(face) : 0xFFFF;
     const unsigned nc = gr_seg_n_cinfo(seg);
     std::vector<char> seenIdx(order.size(), 0);
+    size_t curK = 0;
     auto idOf = [&](const gr_slot *p, const char *what) -> int {
         if (!p) return -1;
         auto it = ord.find(p);
-        if (it == ord.end()) { bad("C04", std::string(what) + " names a slot outside the segment's stream"); return -2; }
+        if (it == ord.end()) { bad("C04", std::string(what) + " of slot " + std::to_string(curK) + " names a slot outside the segment's stream"); return -2; }
         return it->second;
     };
     for (size_t k = 0; k < order.size(); ++k) {
         const gr_slot *s = order[k];
         SlotP p;
+        curK = k;
         p.gid = gr_slot_gid(s); p.index = int(gr_slot_index(s));
         p.before = gr_slot_before(s); p.after = gr_slot_after(s); p.original = gr_slot_original(s);
         p.parent = idOf(gr_slot_attached_to(s), "attached_to");
@@ -165,6 +167,15 @@ SegP project(gr_segment *seg, const gr_face *face, const gr_font *font, bool gid
             if (guard > N + 1) bad("C04", "child chain of slot " + std::to_string(par) + " does not terminate");
             if (occ != 1) bad("C04", "slot " + std::to_string(k) + " occurs " + std::to_string(occ) + " times in the child chain of its parent " + std::to_string(par));
         }
+    }
+    // every member of the chain first_attachment(p), next_sibling_attachment... names p as its parent
+    for (int k = 0; k < N && r.wf.empty(); ++k) {
+        int c = r.slots[k].firstChild, guard = 0;
+        while (c >= 0 && guard++ <= N) {
+            if (r.slots[c].parent != k) { bad("C04", "slot " + std::to_string(c) + " is in the child chain of " + std::to_string(k) + " but names parent " + std::to_string(r.slots[c].parent)); break; }
+            c = r.slots[c].nextSib;
+        }
+        if (guard > N + 1) bad("C04", "child chain of slot " + std::to_string(k) + " does not terminate");
     }
     if (r.wf.empty() && N > 0) {
         // bases form one chain containing each base exactly once; its head is the base no other base points to
